@@ -13,14 +13,14 @@ RULE = (
     "single-point subsets, repeated get_result on the same runner, a second runner in the same process, an aborted request "
     "(KeyboardInterrupt injected at the n-th convolution, then get_result again on the same runner) and a scribbled first "
     "output (tensors zeroed in place before asking again). Every (observable, point) result is compared bit for bit "
-    "(order keys and their order, values, errors) with the reference; in addition every base request is recomputed in a second set of "
+    "(order keys and their order, values, errors) with the reference; one history spells every second point with its mapping keys in the opposite order (Q2 before x);  in addition every base request is recomputed in a second set of "
     "worker processes that see the cases in reverse order and another partition, and the bit patterns are compared (process-wide memos). "
     "Probes count cache hits/misses/drops. "
     "Distinct = (history kind, TMC, scheme, process, PTO); non-trivial = the history contained a cache hit or a cache drop and the compared tensors are non-zero."
     " The second set of processes runs under another PYTHONHASHSEED and serves, before each reference, a twin grid, the same nodes in the other interpolation mode and with another degree, and another NfFF."
 )
 ASSUMPTIONS = ["the point dictionaries of one history are distinct objects unless the history class says otherwise"]
-HKINDS = ["permute", "superset", "subset", "repeat", "second-runner", "abort", "scribble"]
+HKINDS = ["permute", "superset", "subset", "repeat", "second-runner", "abort", "scribble", "keyorder"]
 
 
 def budget(tier):
@@ -132,10 +132,12 @@ class Probes:
         self.conv.convolution = self.orig_conv
 
 
-def kin(p, with_y):
+def kin(p, with_y, rev=False):
     d = dict(x=p["x"], Q2=p["Q2"])
     if with_y:
         d["y"] = p.get("y", 0.5)
+    if rev:  # the same mapping written with its keys in the opposite order (a YAML card may list Q2 before x)
+        d = {k: d[k] for k in reversed(list(d))}
     return d
 
 
@@ -152,8 +154,8 @@ def run_case(case):
     def mkobs(obsd):
         return cards.observables(obsd, xgrid=g["xgrid"], deg=g["deg"], is_log=g["is_log"], **case["obs"])
 
-    def request(nlist, plist):
-        return {n: [kin(p, is_xs(n)) for p in plist] for n in nlist}
+    def request(nlist, plist, rev=()):
+        return {n: [kin(p, is_xs(n), rev=(j in rev)) for j, p in enumerate(plist)] for n in nlist}
 
     pr = Probes()
     viol, nontrivial, classes = [], set(), {"tmc" if th["TMC"] else "notmc"}
@@ -269,6 +271,13 @@ def run_case(case):
                 pr.abort_at = None
                 out = r.get_result()
                 judge(hk if aborted else "repeat", out, names, base_pts, before)
+            elif hk == "keyorder":
+                # every second point (and, in a second run, the others) spelt with its keys in the opposite order, duplicates of the
+                # first two points in the other spelling appended: a mapping is the same point however its keys are listed
+                for odd in (1, 0):
+                    pl = [*base_pts, dict(base_pts[0]), dict(base_pts[1])]
+                    rev = {j for j in range(len(pl)) if (j % 2 == odd) != (j >= len(base_pts))}
+                    judge(hk, yad.Runner(th, mkobs(request(names, pl, rev=rev))).get_result(), names, pl, before)
             elif hk == "scribble":
                 r = yad.Runner(th, mkobs(request(names, base_pts)))
                 first = r.get_result()
